@@ -219,6 +219,9 @@ func reflectStruct(rv reflect.Value, val any, opt *Options) any {
 	fields := si.getFields(opt)
 	addr := rv.UnsafeAddr()
 	for _, fi := range fields {
+		if 1 < len(fi.index) && nilEmbedded(rv, fi.index) {
+			continue
+		}
 		if v, fv, omit := fi.value(fi, rv, addr); !omit {
 			if fv.IsValid() {
 				if opt.NestEmbed && fv.Kind() == reflect.Struct {
@@ -246,6 +249,9 @@ func reflectEmbed(rv reflect.Value, val any, opt *Options) any {
 	}
 	fields := si.getFields(opt)
 	for _, fi := range fields {
+		if 1 < len(fi.index) && nilEmbedded(rv, fi.index) {
+			continue
+		}
 		if v, fv, omit := fi.ivalue(fi, rv, 0); !omit {
 			if fv.IsValid() {
 				if opt.NestEmbed && fv.Kind() == reflect.Struct {
